@@ -361,7 +361,8 @@ class Driver(BaseComponent):
             w.drive(event)
         finally:
             # contract of generate_events: a handler that did something must make sure nobody sleeps
-            if not w.lazy:
+            # (lazy worlds: only while scripted actions are still to come - afterwards the library alone decides how long to idle)
+            if not w.lazy or w.script or w.acted:
                 event.reduce_time_left(0)
 
 
@@ -414,6 +415,8 @@ class RunWorld(World):
         self.stopped_by_driver = False
         self.auto_stop = True
         self.idle_waits = []      # (log index, timeout) of every idle wait seen by the IdleEvent double
+        self.hung = None          # set when the loop went to sleep without bound although work was pending
+        self.acted = False
 
     lazy = False      # True: the driver does not ask for zero idle time - the loop idles exactly as the library decides
 
@@ -424,8 +427,12 @@ class RunWorld(World):
 
     def on_idle_wait(self, timeout):
         self.idle_waits.append((len(self.log), timeout))
-        self.log.append(('idle-wait', timeout))
-        if timeout is None or timeout >= 1000:
+        q, t = self.pending()
+        unbounded = timeout is None or timeout >= 1000
+        self.log.append(('idle-wait', timeout, q, t))
+        if unbounded and (q or t):
+            self.hung = 'the loop entered an idle wait of %r s with %d event(s) queued and %r task(s) registered' % (timeout, q, t)
+        if unbounded:
             ev = getattr(self.root, '_currently_handling', None)
             if ev is not None and hasattr(ev, 'reduce_time_left'):
                 ev.reduce_time_left(0)       # release (harness only, after the unbounded wait has been recorded)
@@ -436,6 +443,7 @@ class RunWorld(World):
 
     def drive(self, event):
         self.log.append(('iter', self.iterations))
+        self.acted = bool(self.script)
         if self.script:
             act = self.script.pop(0)
             if act == 'quiet':
